@@ -114,6 +114,9 @@ func (e event) String() string {
 // ---------------------------------------------------------------------------------------------
 // the real object under test
 
+// lightListeners is set in the worker processes of the E3 part.
+var lightListeners bool
+
 type subject struct {
 	dir       string
 	cfgPath   string
@@ -164,6 +167,11 @@ func newSubject(dir string, cfg, rules content, version string) (*subject, error
 		i := i
 		c.RegisterReloadCallback(func(cfgHash, rulesHash string) {
 			s.calls[i]++
+			if lightListeners {
+				// E3 part: every getter is two scheduling points; the listener only reads what a real one does
+				s.cfg.GetIsDryRun()
+				return
+			}
 			s.seen[i] = append(s.seen[i], snapshot(s.cfg, s.dir))
 		})
 	}
@@ -466,7 +474,7 @@ func main() {
 	if workRoot == "" {
 		ev.Harness("VERIF_WORK not set (run through ./vcheck)")
 	}
-	workRoot = filepath.Join(workRoot, "files")
+	workRoot = filepath.Join(workRoot, fmt.Sprintf("files_%d", os.Getpid()))
 	os.RemoveAll(workRoot)
 	if err := os.MkdirAll(workRoot, 0o755); err != nil {
 		ev.Harness("%v", err)
@@ -475,6 +483,10 @@ func main() {
 
 	if path := replayArg(); path != "" {
 		replay(path)
+	}
+	if _, _, isShard := ev.ShardInfo(); isShard {
+		lightListeners = true
+		concurrentPart(r, "v2.5.0") // worker process of the E3 part: runs its scenario and exits
 	}
 	nCfg, nRules := ev.Pick(r, 8, len(cfgContents)), ev.Pick(r, 6, len(rulesContents))
 	var alphabet []event
@@ -509,6 +521,7 @@ func main() {
 			MaxDepth: depth, Workers: 16,
 		})
 	}
+	concurrentPart(r, "v2.5.0")
 	r.Set("traces_validated_against_impl", r.Count("transitions"))
 	r.Set("reloads_applied", stApplied.Load())
 	r.Set("reloads_applied_with_startup_warning", stAppliedWarn.Load())
@@ -524,6 +537,6 @@ func main() {
 	r.Assume("a reload that startup would reject: only 'getters unchanged' is demanded (whether listeners are notified is not checked - the statement only speaks about applied and unchanged content); Reload's return value is not checked")
 	r.Assume("a listener must see the new configuration through the getters at the moment it is notified (an 'applied change notifies')")
 	r.Assume("canonical state = (version, bytes on disk, bytes running, real hashes, digest of all sampled getters): fileConfig has no other mutable state (callbacks are fixed), so equal states have equal futures")
-	r.Assume("every explored history is an execution of the real fileConfig (NewConfig, Reload, ConfigWatcher.SubscriptionListener); the timer trigger is represented by its body cw.Config.Reload(); OpAMP-supplied config data and multi-file locations are outside the alphabet; concurrent triggers are the E3 part (not in this check yet)")
+	r.Assume("every explored history is an execution of the real fileConfig (NewConfig, Reload, ConfigWatcher.SubscriptionListener); the timer trigger is represented by its body cw.Config.Reload(); OpAMP-supplied config data and multi-file locations are outside the alphabet; concurrent triggers are covered by the E3 part (concurrent.go): timer ∥ pubsub ∥ reader over 6 change scenarios, all schedules up to the preemption bound")
 	r.Finish()
 }
